@@ -12,7 +12,15 @@
 (* Fixed = TRUE is the table after the two `fix:` commits.                      *)
 EXTENDS Integers, FiniteSets
 
-CONSTANT Fixed
+(*                                                                              *)
+(* Variables that only mean something TOGETHER (an invariant relates them) form *)
+(* a consistency group: making each of them atomic removes the data race but    *)
+(* not the inconsistency - accesses to different members of a group need a      *)
+(* common lock (or the group must be a single cell).  TimeCells selects what    *)
+(* the default-format time stage remembers between evaluations (TimeMemo.tla):  *)
+(* "format" (the code: one cell), "pair1" (last conversion in one cell),        *)
+(* "pair2" (last input and last result in two atomic cells: must be rejected).  *)
+CONSTANTS Fixed, TimeCells
 
 \* goroutine classes; Multi = several instances may run at once
 Multi == {"reader", "worker", "status"}
@@ -61,7 +69,17 @@ Accesses == {
   \* pkg/expressions/stdlib/funcsTime.go
   A("atomicFormat", "Load", "worker", "ar", {}),
   A("atomicFormat", "Store", "worker", "aw", {})
-}
+} \cup (CASE TimeCells = "pair1" -> {A("lastConversion", "Load", "worker", "ar", {}), A("lastConversion", "Store", "worker", "aw", {})}
+          [] TimeCells = "pair2" -> {A("lastTime", "Load", "worker", "ar", {}), A("lastTime", "Store", "worker", "aw", {}),
+                                     A("lastResult", "Load", "worker", "ar", {}), A("lastResult", "Store", "worker", "aw", {})}
+          [] OTHER -> {})
+
+\* consistency groups: variable -> group (a variable not listed is a group of its own)
+GroupOf(v) ==
+  CASE v \in {"lastRate", "lastRateBytes", "lastRateUpdate"} -> "rate"          \* rate = bytes since lastRateUpdate
+    [] v \in {"readCount", "activeFiles"} -> "files"                            \* a file leaves activeFiles as it is counted
+    [] v \in {"lastTime", "lastResult"} -> "timeMemo"                           \* lastResult = conversion of lastTime
+    [] OTHER -> v
 
 Writes(a) == a.mode \in {"w", "aw"}
 Atomic(a) == a.mode \in {"ar", "aw"}
@@ -82,4 +100,10 @@ Spec == Init /\ [][Next]_pair
 
 TypeOK == pair \in Accesses \X Accesses
 Disciplined == Conflict(pair[1], pair[2]) => Protected(pair[1], pair[2])
+\* accesses to DIFFERENT members of one group that can run concurrently, one of them writing: a common lock
+\* (atomicity of the single cells does not count)
+GroupConflict(a, b) ==
+  /\ a.var # b.var /\ GroupOf(a.var) = GroupOf(b.var)
+  /\ Concurrent(a, b) /\ (Writes(a) \/ Writes(b))
+Grouped == GroupConflict(pair[1], pair[2]) => Protected(pair[1], pair[2])
 =============================================================================
